@@ -89,3 +89,29 @@ V('h-silent-log-threshold', H,
   'float threshold = config->use_beta ? std::exp(scored_cats[token_id].top().first) * config->beta : std::numeric_limits<float>::lowest();',
   'float threshold = config->use_beta ? scored_cats[token_id].top().first + std::log(config->beta) : std::numeric_limits<float>::lowest();\n#define VERIF_LOGFORM 1',
   ['C01'], expect='silent')
+
+# ---------------------------------------------------------------- parsing.pyx
+V('x-token-not-advanced', PYX, '        token_id[0] += 1\n', '', ['C02'])
+V('x-token-advance-2', PYX, 'token_id[0] += 1', 'token_id[0] += 2', ['C02'])
+V('x-pops-swapped', PYX, '        right = stack.pop()\n        left = stack.pop()', '        left = stack.pop()\n        right = stack.pop()', ['C02'])
+V('x-cat-from-ruleid', PYX, "cat = kwargs['categories'][item.cat]", "cat = kwargs['categories'][item.rule_id]", ['C02'])
+V('x-score-of-child', PYX, "kwargs['scores'].append(item.score())", "kwargs['scores'].append(item.left.score())", ['C09'])
+V('x-score-on-every-node', PYX, "    cat = kwargs['categories'][item.cat]\n    stack = kwargs['stack']", "    cat = kwargs['categories'][item.cat]\n    kwargs['scores'].append(item.score())\n    stack = kwargs['stack']", ['C09', 'C10'])
+V('x-id-off-by-one', PYX, "            categories_.append(cat)\n            category_ids[cat] = len(category_ids)", "            categories_.append(cat)\n            category_ids[cat] = len(categories_)", ['C02'])
+V('x-enumerate-from-1', PYX, 'enumerate(apply_binary_rules(x, y))', 'enumerate(apply_binary_rules(x, y), 1)', ['C12'])
+V('x-callback-filter', PYX, "        for rule_id, result in enumerate(apply_unary_rules(x)):\n            cat_id", "        for rule_id, result in enumerate(apply_unary_rules(x)):\n            if result.cat == x:\n                continue\n            cat_id", ['C12'])
+V('x-callback-args-swapped', PYX, 'x, y = categories_[x_id], categories_[y_id]', 'x, y = categories_[y_id], categories_[x_id]', ['C02'])
+V('x-scaffold-ruleid', PYX, 'c_result.rule_id = rule_id', 'c_result.rule_id = cat_id', ['C12'])
+V('x-scaffold-symbol', PYX, "c_result.op_symbol = result.op_symbol.encode('utf-8')", "c_result.op_symbol = result.op_string.encode('utf-8')", ['C12'])
+V('x-failed-score-zero', PYX, "score=-float('inf')", "score=0.0", ['C09', 'C11'])
+V('x-status-gt-1', PYX, 'if status > 0:', 'if status > 1:', ['C11'])
+V('x-buffers-outside-loop', PYX, "        results = []\n        scores = []\n", "", ['C10', 'C11'])
+V('x-no-duplicate-check', PYX, 'if len(set(categories)) != len(categories):', 'if False:', ['C02', 'C11'])
+V('x-table-aliases-caller', PYX, 'categories_ = copy.copy(categories)', 'categories_ = categories', ['C11', 'C02'])
+V('x-head-dropped', PYX, "                combinator_result.head_is_left,\n", "", ['C12'])
+V('x-unary-key-uses-cat', PYX, "            key.first = child_cat\n            key.second = -1", "            key.first = item.cat\n            key.second = -1", ['C12'])
+V('x-binary-key-swapped', PYX, "        key.first = child_cat\n        key.second = right_child_cat", "        key.first = right_child_cat\n        key.second = child_cat", ['C12'])
+V('x-too-long-no-continue', PYX, "            all_results.append(failed())\n            continue\n\n        results = []", "            all_results.append(failed())\n\n        results = []", ['C11'])
+V('x-silent-score-inscore', PYX, "kwargs['scores'].append(item.score())", "kwargs['scores'].append(item.in_score)", ['C09', 'C10'], expect='silent')
+V('x-silent-list-copy', PYX, 'categories_ = copy.copy(categories)', 'categories_ = list(categories)', ['C02', 'C11'], expect='silent')
+V('x-silent-rename-stack', PYX, "    stack = kwargs['stack']", "    stack = kwargs['stack']\n    out_stack = stack", ['C02', 'C12'], expect='silent')
